@@ -141,8 +141,8 @@ def run_segment_real(media_name, ref_name, now, options, seg_num, seg_time, mode
 # ---------------------------------------------------------------------------
 # independent ISO-BMFF walker (does not use dashlive.mpeg.mp4)
 
-CONTAINERS = {'moov', 'trak', 'mdia', 'minf', 'stbl', 'mvex', 'moof', 'traf', 'sinf', 'schi', 'udta', 'edts',
-              'dinf'}
+# boxes the library itself models as plain containers (other boxes are opaque payloads)
+CONTAINERS = {'moov', 'trak', 'mdia', 'minf', 'stbl', 'mvex', 'moof', 'traf', 'sinf', 'schi', 'udta'}
 
 
 class Box:
@@ -197,7 +197,9 @@ def _u(data, pos, n):
 def _concrete_int(v, what):
     if isinstance(v, int):
         return v
-    raise ValueError(f'{what} is symbolic in the served bytes (structure must be concrete per path)')
+    # structure must be concrete per path: a symbolic size/count is concretised by a bounded
+    # solver fork (in the discovery pass this marks the bytes as structural)
+    return v.concrete(what)
 
 
 def walk(data, start=0, end=None, depth=0):
